@@ -1,9 +1,101 @@
-(* Properties/C09.v — placeholder while the proofs are being written. *)
-From Coq Require Import List NArith Bool Lia.
-From C2PA Require Import Base.Bytes Model.Container Model.ContPng Model.ContJpeg Model.ContGif Model.ContRiff Model.ContRun
-     Proofs.ContainerProofs Generated.C07_facts.
-Import ListNotations.
-Open Scope N_scope.
+(* Properties/C09.v — Embedding and removing a manifest preserves the media content.
+   Statements only; every theorem is closed by [exact] of a lemma in Proofs/.
 
-Theorem c09_facts_agree : PLACEHOLDER_LEN = F_JPEG_PLACEHOLDER_LEN /\ PNG_HDR_LEN = F_PNG_HDR_LEN.
+   Segment formats (.c2pa, PNG, JPEG, GIF, RIFF): the media content of an asset is the list of its
+   non-C2PA segments [strip F l], in order.  Part 1 states preservation for every format satisfying
+   the obligations (proved once), part 2 that the handlers satisfy them (their transcriptions are the
+   reference operations: Properties/C07.v part 3).  Part 3 is BMFF: an abstract model of the
+   absolute-offset fix-up (every table entry shifted by the size change of the C2PA box) — correct for
+   entries behind the box, refuted for entries in front of it (F-BMFF). *)
+From Coq Require Import List NArith ZArith Bool Lia.
+From C2PA Require Import Base.Bytes Model.Container Model.ContPng Model.ContJpeg Model.ContGif Model.ContRiff Model.ContRun
+     Model.BmffOffsets Proofs.ContainerProofs Proofs.ContPngProofs Proofs.ContJpegProofs Proofs.ContGifProofs
+     Proofs.BmffOffsetsProofs Generated.C07_facts.
+Import ListNotations.
+
+Theorem c09_facts_agree : C2PA_MARKER = F_C2PA_MARKER /\ JP_EN = F_JP_EN /\ CABX = F_PNG_CAI_CHUNK
+                          /\ C2PA_GIF_ID = F_GIF_C2PA_ID /\ C2PA_CHUNK_ID = F_RIFF_C2PA_ID.
 Proof. vm_compute. repeat split; reflexivity. Qed.
+
+(* ---- 1. for every format satisfying the obligations ---- *)
+
+(* the non-C2PA segments of [write a b] and of [remove a] are those of [a], bytes and order included *)
+Theorem c09_media_preserved :
+  forall F seg_ok adm, laws F seg_ok adm ->
+  forall l b, okl F seg_ok l -> adm b ->
+    strip F (gwrite F l b) = strip F l /\ strip F (gremove F l) = strip F l.
+Proof. intros F so ad L l b H Ha. split; [exact (strip_write F so ad L l b H Ha)| exact (strip_remove F so ad L l)]. Qed.
+
+(* removing the manifest from an asset produced by embedding = removing it from the original *)
+Theorem c09_remove_write :
+  forall F seg_ok adm, laws F seg_ok adm ->
+  forall l b, okl F seg_ok l -> adm b -> gremove F (gwrite F l b) = gremove F l.
+Proof. exact remove_write. Qed.
+
+(* replacing (growing, shrinking or equal size): the result does not depend on what was embedded before *)
+Theorem c09_replace :
+  forall F seg_ok adm, laws F seg_ok adm ->
+  forall l b1 b2, okl F seg_ok l -> adm b1 -> adm b2 -> gwrite F (gwrite F l b1) b2 = gwrite F l b2.
+Proof. exact write_write. Qed.
+
+(* any sequence of write/remove operations keeps the media segments *)
+Theorem c09_ops_media :
+  forall F seg_ok adm, laws F seg_ok adm ->
+  forall l ops, okl F seg_ok l -> Forall (adm_op adm) ops ->
+    okl F seg_ok (grun F l ops) /\ strip F (grun F l ops) = strip F l.
+Proof. exact grun_inv. Qed.
+
+(* ---- 2. the modelled handlers ---- *)
+Theorem c09_laws_png : forall crc, laws (png_format crc) (fun _ => True) png_adm.
+Proof. exact png_laws. Qed.
+Theorem c09_laws_jpeg : laws jpeg_format jseg_ok jadm.
+Proof. exact jpeg_laws. Qed.
+Theorem c09_laws_gif : laws gif_format (fun _ => True) gif_adm.
+Proof. exact gif_laws. Qed.
+Theorem c09_laws_riff : laws riff_format (fun _ => True) riff_adm.
+Proof. exact riff_laws. Qed.
+
+(* PNG on bytes: a write/remove sequence on a valid PNG re-encodes the chunk list of the generic run,
+   whose non-caBX chunks are the original ones (trailer bytes after IEND unchanged) *)
+Theorem c09_png_bytes :
+  forall crc ops cs tr,
+    chunks_wf cs -> has_ihdr cs -> (count is_cabx cs <= 1)%nat -> Forall png_op_ok ops ->
+    png_run crc (png_enc cs tr) ops = ROk (png_enc (grun (png_format crc) cs ops) tr)
+    /\ chunks_wf (grun (png_format crc) cs ops) /\ has_ihdr (grun (png_format crc) cs ops)
+    /\ (count is_cabx (grun (png_format crc) cs ops) <= 1)%nat.
+Proof. exact png_run_bytes. Qed.
+
+(* ---- 3. BMFF absolute offsets (abstract model; F-BMFF) ---- *)
+
+(* entries addressing data behind the replaced C2PA box address the same media byte after the shift *)
+Theorem c09_bmff_shift_correct_after :
+  forall (file : bytes) p del (ins : bytes) e d,
+    (p + del <= e)%nat -> (e < length file)%nat ->
+    exists e', adjust_entry (adjust del ins) e = Z.of_nat e' /\ nth e' (splice file p del ins) d = nth e file d.
+Proof. exact (@shift_correct_after N). Qed.
+
+(* data in front of the box does not move ... *)
+Theorem c09_bmff_unmoved_before :
+  forall (file : bytes) p del (ins : bytes) e d,
+    (e < p)%nat -> (p <= length file)%nat -> nth e (splice file p del ins) d = nth e file d.
+Proof. exact (@unshifted_before N). Qed.
+
+(* ... but its table entry is shifted all the same whenever the box size changes *)
+Theorem c09_bmff_shift_wrong_before :
+  forall (file : bytes) p del (ins : bytes) e,
+    (e < p)%nat -> adjust del ins <> 0%Z -> adjust_entry (adjust del ins) e <> Z.of_nat e.
+Proof. exact (@shift_wrong_before N). Qed.
+
+Theorem c09_bmff_refuted :
+  let file := [10; 11; 12; 13; 99; 99]%nat in
+  let out := splice file 4 2 [77; 77; 77; 77]%nat in
+  nth 1 file 0%nat = 11%nat /\ adjust_entry (adjust 2 [77; 77; 77; 77]%nat) 1 = 3%Z /\ nth 3 out 0%nat = 13%nat
+  /\ adjust_entry (adjust 2 (@nil nat)) 1 = (-1)%Z.
+Proof. exact shift_refuted. Qed.
+
+(* the model computes a non-trivial case: the GIF blocks other than the C2PA block survive write + remove *)
+Example c09_example_gif :
+  let bs := [GBlock 254 [] (Some [[104; 105]%N]); gmk (gen_store 30 1); GBlock 249 [4; 0; 0; 0; 0; 0]%N None] in
+  strip gif_format (gwrite gif_format bs (gen_store 300 2)) = [GBlock 254 [] (Some [[104; 105]%N]); GBlock 249 [4; 0; 0; 0; 0; 0]%N None]
+  /\ gremove gif_format (gwrite gif_format bs (gen_store 300 2)) = gremove gif_format bs.
+Proof. vm_compute. split; reflexivity. Qed.
